@@ -103,6 +103,13 @@ class ParserLogger:
 
     @classmethod
     def __munge(cls, show_whitespace: bool, log_format: str, args: List[Any]) -> str:
+        if not args:
+            # Without arguments there is nothing to substitute: the message is
+            # complete as it is, and any $ character in it is part of its text
+            # (i.e. a message that was built from the text of the document).
+            return log_format.replace(ParserLogger.start_range_sequence, "").replace(
+                ParserLogger.end_range_sequence, ""
+            )
         split_log_format = log_format.split("$")
         split_log_format_length = len(split_log_format)
         args_length = len(args)
